@@ -327,68 +327,115 @@ def replayA : List CEv → RegsA → RegsA
   | .w a v :: t, r => replayA t (fun b => if b = a then v else r b)
   | _ :: t, r => replayA t r
 
-/-! ## RoCC (`snaxc/accelerators/rocc.py`): executable model only, no theorem (depends on state inference) -/
+/-! ## RoCC (`snaxc/accelerators/rocc.py`)
+
+An instruction-configured accelerator: every emitted `.insn` transmits BOTH source registers of one
+instruction.  `create_pairs` builds `field_dict = dict(op.iter_params())` (a field given twice keeps its LAST
+value) and, for a setup, fills the operand the op does not give from `infer_state_of(in_state)`; a setup
+without input state gets the materialised default `0` instead.  That is modelled as a lookup chain
+(`operand`): the op's own last value for the field, else the fallback.  `prev` (the inferred state) is computed
+by the real code and passed in as data: its soundness is the business of the state-inference property (C07)
+and appears as the named hypothesis `PrevSound` of the theorems in `Props/C04.lean`. -/
 
 inductive RVal
   | var (v : Var)
   | default0        -- the materialised `arith.constant 0 : i64`
 deriving DecidableEq, Repr
 
+/-- `insn instr funct7 rs1 rs2`: the asm string only carries `funct7`; `instr` is the name of the declared
+instruction it was emitted for (the `.rs1` key it came from), kept for the semantics. -/
 inductive RStmt
   | const0
-  | insn (func7 : Nat) (rs1 rs2 : RVal)
+  | insn (instr : String) (func7 : Nat) (rs1 rs2 : RVal)
 deriving DecidableEq, Repr
 
 /-- `name[:-4]` -/
 def instrOf (f : String) : String := String.ofList (f.toList.take (f.length - 4))
 
-/-- `dict(iter_params())`: last value wins, first position kept -/
-def pdictSet {α} (d : List (String × α)) (k : String) (v : α) : List (String × α) :=
-  if d.any (fun e => e.1 == k) then d.map (fun e => if e.1 == k then (e.1, v) else e) else d ++ [(k, v)]
-def pdictOf {α} (ps : List (String × α)) : List (String × α) := ps.foldl (fun d e => pdictSet d e.1 e.2) []
+/-- `name.endswith(".rs1")` -/
+def isRs1 (f : String) : Bool := ".rs1".toList.isSuffixOf f.toList
+
+/-- `dict(pairs)[k]`: the value of the LAST occurrence of `k` -/
+def lastLookup {α} : List (String × α) → String → Option α
+  | [], _ => none
+  | (k', v) :: r, k =>
+    match lastLookup r k with
+    | some x => some x
+    | none => if k' == k then some v else none
+
+/-- lookup in a Python dict given as its item list -/
 def plookup {α} (d : List (String × α)) (k : String) : Option α := (d.find? (fun e => e.1 == k)).map (·.2)
 
-/-- `combine_pairs_to_ops` over the declared items restricted to the instructions present -/
-def roccEmit (decl : Dict) (instrs : List String) (fd : List (String × RVal)) : Except Err (List RStmt) :=
-  (decl.filter (fun e => ".rs1".toList.isSuffixOf e.1.toList && instrs.contains (instrOf e.1))).mapM (fun e =>
-    match plookup fd (instrOf e.1 ++ ".rs1"), plookup fd (instrOf e.1 ++ ".rs2") with
-    | some a, some b => .ok (RStmt.insn e.2 a b)
-    | _, _ => .error .keyError)
+/-- `field_dict[k]` after `create_pairs` filled it: the op's own value, else the fallback -/
+def operand (ps : List (String × Var)) (fb : String → Option RVal) (k : String) : Option RVal :=
+  match lastLookup ps k with
+  | some v => some (.var v)
+  | none => fb k
 
-/-- `RoCCAccelerator.lower_acc_setup` + `create_pairs`; `prev` = `infer_state_of(in_state)` computed by the
-real code and passed as data (`none` = no input state). -/
+/-- `instruction in set(name[:-4] for name, _ in op.iter_params())` -/
+def hasInstr (ps : List (String × Var)) (i : String) : Bool := ps.any (fun p => instrOf p.1 == i)
+
+/-- both operands of every instruction the op mentions are available -/
+def complete (ps : List (String × Var)) (fb : String → Option RVal) : Bool :=
+  ps.all (fun p => (operand ps fb (instrOf p.1 ++ ".rs1")).isSome && (operand ps fb (instrOf p.1 ++ ".rs2")).isSome)
+
+/-- `combine_pairs_to_ops(field_items, values)`: one instruction per declared `.rs1` key, in declaration order.
+`restrict = true` (setup): only the instructions the op mentions (`current_fields`); `restrict = false`
+(launch): every declared launch instruction, `values[name]` raising `KeyError` for one the op lacks. -/
+def roccEmit (ps : List (String × Var)) (fb : String → Option RVal) (restrict : Bool) : Dict → Except Err (List RStmt)
+  | [] => .ok []
+  | e :: r =>
+    if isRs1 e.1 then
+      if hasInstr ps (instrOf e.1) then
+        match operand ps fb (instrOf e.1 ++ ".rs1"), operand ps fb (instrOf e.1 ++ ".rs2") with
+        | some a, some b =>
+          match roccEmit ps fb restrict r with
+          | .ok l => .ok (.insn (instrOf e.1) e.2 a b :: l)
+          | .error x => .error x
+        | _, _ => .error .keyError
+      else if restrict then roccEmit ps fb restrict r else .error .keyError
+    else roccEmit ps fb restrict r
+
+def fromState (st : List (String × Var)) : String → Option RVal := fun k => (plookup st k).map RVal.var
+
+/-- `RoCCAccelerator.lower_acc_setup` + `create_pairs`; `prev` = `infer_state_of(in_state)` (`none` = the
+setup has no input state). -/
 def roccSetup (decl : Dict) (ps : List (String × Var)) (prev : Option (List (String × Var))) :
     Except Err (List RStmt) :=
-  let fd0 : List (String × RVal) := pdictOf (ps.map (fun p => (p.1, RVal.var p.2)))
-  let instrs := (ps.map (fun p => instrOf p.1)).eraseDups
   match prev with
   | none =>
-    -- defaults for never-set partners of a first setup
-    let missing := instrs.flatMap (fun i =>
-      (if (plookup fd0 (i ++ ".rs1")).isNone then [i ++ ".rs1"] else []) ++
-      (if (plookup fd0 (i ++ ".rs2")).isNone then [i ++ ".rs2"] else []))
-    let fd := missing.foldl (fun d k => pdictSet d k RVal.default0) fd0
-    match roccEmit decl instrs fd with
+    -- defaults for the operands the setup does not give ("not set yet"); the constant is only materialised
+    -- when one is needed
+    match roccEmit ps (fun _ => some .default0) true decl with
     | .error e => .error e
-    | .ok l => .ok ((if missing.isEmpty then [] else [RStmt.const0]) ++ l)
+    | .ok l => .ok ((if complete ps (fun _ => none) then [] else [RStmt.const0]) ++ l)
   | some st =>
-    -- retrace the partner through the inferred previous state; KeyError if it was never set
-    let need := instrs.flatMap (fun i =>
-      (if (plookup fd0 (i ++ ".rs1")).isNone then [i ++ ".rs1"] else []) ++
-      (if (plookup fd0 (i ++ ".rs2")).isNone then [i ++ ".rs2"] else []))
-    if need.all (fun k => (plookup st k).isSome) then
-      let fd := need.foldl (fun d k => match plookup st k with
-        | some v => pdictSet d k (RVal.var v)
-        | none => d) fd0
-      roccEmit decl instrs fd
-    else .error .keyError
+    -- retrace the partner through the inferred previous state; KeyError if it is not there
+    if complete ps (fromState st) then roccEmit ps (fromState st) true decl else .error .keyError
 
 /-- `RoCCAccelerator.lower_acc_launch`: no retrace, both operands must be present (`assert`) -/
 def roccLaunch (decl : Dict) (ps : List (String × Var)) : Except Err (List RStmt) :=
-  let fd : List (String × RVal) := pdictOf (ps.map (fun p => (p.1, RVal.var p.2)))
-  let instrs := (ps.map (fun p => instrOf p.1)).eraseDups
-  if instrs.all (fun i => (plookup fd (i ++ ".rs1")).isSome && (plookup fd (i ++ ".rs2")).isSome) then
-    roccEmit decl instrs fd
-  else .error .assertLaunch
+  if complete ps (fun _ => none) then roccEmit ps (fun _ => none) false decl else .error .assertLaunch
+
+/-! ### instruction-level and accfg-level register files of a RoCC accelerator -/
+
+abbrev RegsR := String → Int
+
+def upd (r : RegsR) (k : String) (x : Int) : RegsR := fun j => if j = k then x else r j
+
+def rvalOf (val : Var → Int) : RVal → Int
+  | .var v => val v
+  | .default0 => 0
+
+/-- executing emitted instructions: each one writes both source registers of its instruction -/
+def execR (val : Var → Int) : List RStmt → RegsR → RegsR
+  | [], r => r
+  | .const0 :: l, r => execR val l r
+  | .insn i _ a b :: l, r => execR val l (upd (upd r (i ++ ".rs1") (rvalOf val a)) (i ++ ".rs2") (rvalOf val b))
+
+/-- accfg level: a setup writes the fields it names, in order -/
+def applySetup (val : Var → Int) : List (String × Var) → RegsR → RegsR
+  | [], r => r
+  | (k, v) :: ps, r => applySetup val ps (upd r k (val v))
 
 end SnaxVerif.CsrLower
